@@ -692,6 +692,105 @@ int streamStore(std::istream& in)
   return 0;
 }
 
+// ---------------------------------------------------------------------------
+// stream "nth": nth_prime(n, start) through the C++ and the C API
+//   nth <n> <start> <threads> <sieveKiB> <cpp|c>
+// observation: v=<prime> or ERR:<class>; the harness oracle walks the primes itself.
+// ---------------------------------------------------------------------------
+
+// the |n|-th prime > start (n > 0), < start (n < 0), first prime >= start (n = 0); false = does not exist
+bool oracleNth(long long n, uint64_t start, uint64_t& out)
+{
+  if (n == 0)
+  {
+    uint64_t x = start;
+    while (true) { if (isPrimeOracle(x)) { out = x; return true; } if (x == UINT64_MAX) return false; x++; }
+  }
+  const uint64_t CH = 2000000;
+  std::vector<char> isP;
+  if (n > 0)
+  {
+    if (start == UINT64_MAX) return false;
+    uint64_t lo = start + 1;
+    long long left = n;
+    while (true)
+    {
+      uint64_t hi = (UINT64_MAX - lo < CH) ? UINT64_MAX : lo + CH;
+      oracleRange(lo, hi, isP);
+      for (uint64_t x = lo; ; x++) { if (isP[x - lo] && --left == 0) { out = x; return true; } if (x == hi) break; }
+      if (hi == UINT64_MAX) return false;
+      lo = hi + 1;
+    }
+  }
+  else
+  {
+    if (start <= 2) return false;
+    uint64_t hi = start - 1;
+    long long left = -n;
+    while (true)
+    {
+      uint64_t lo = hi < CH ? 0 : hi - CH;
+      oracleRange(lo, hi, isP);
+      for (uint64_t x = hi; ; x--) { if (isP[x - lo] && --left == 0) { out = x; return true; } if (x == lo) break; }
+      if (lo == 0) return false;
+      hi = lo - 1;
+    }
+  }
+}
+
+int streamNth(std::istream& in)
+{
+  std::string line;
+  while (std::getline(in, line))
+  {
+    auto t = split(line);
+    if (t.empty() || t[0][0] == '#')
+      continue;
+    if (t[0] != "nth" || t.size() < 6) { std::cerr << "bad op: " << line << "\n"; return 2; }
+    long long n = strtoll(t[1].c_str(), nullptr, 10);
+    uint64_t start = u64(t[2]);
+    primesieve::set_num_threads(atoi(t[3].c_str()));
+    primesieve::set_sieve_size(atoi(t[4].c_str()));
+    bool capi = t[5] == "c";
+    std::string res;
+    bool err = false;
+    uint64_t v = 0;
+    if (capi)
+    {
+      errno = 0;
+      v = primesieve_nth_prime(n, start);
+      int e = errno;
+      if (v == PRIMESIEVE_ERROR || e == EDOM)
+      {
+        err = true;
+        res = (v == PRIMESIEVE_ERROR && e == EDOM) ? "ERR" : "ERR-CONTRACT(v=" + std::to_string(v) + ",errno=" + std::to_string(e) + ")";
+      }
+    }
+    else
+    {
+      try { v = primesieve::nth_prime(n, start); }
+      catch (const primesieve::primesieve_error&) { err = true; res = "ERR"; }
+      catch (const std::exception& e) { err = true; res = std::string("ERR-OTHER:") + errClass(e); }
+    }
+    std::cout << line << " => " << (err ? res : "v=" + std::to_string(v));
+    // oracle (only when the walk is affordable)
+    unsigned long long an = n < 0 ? 0ull - (unsigned long long) n : (unsigned long long) n;
+    bool tooMany = an > 425656284035217743ull;
+    if (tooMany) { if (!err) std::cout << " ORACLE-MISMATCH expected=error(|n|>pi(2^64))"; }
+    else if (an <= (start > 100000000000000ull ? 150000ull : 3000000ull))
+    {
+      uint64_t exp = 0;
+      bool exists = oracleNth(n, start, exp);
+      if (exists && (err || v != exp)) std::cout << " ORACLE-MISMATCH expected=" << exp;
+      if (!exists && !err) std::cout << " ORACLE-MISMATCH expected=error";
+    }
+    std::cout << "\n";
+  }
+  primesieve::set_num_threads(1 << 20);
+  primesieve::set_sieve_size(256);
+  return 0;
+}
+
 } // namespace
 
 int main(int argc, char** argv)
@@ -719,6 +818,8 @@ int main(int argc, char** argv)
     return streamPrint(in);
   if (stream == "store")
     return streamStore(in);
+  if (stream == "nth")
+    return streamNth(in);
   std::cerr << "unknown stream " << stream << "\n";
   return 2;
 }
